@@ -170,3 +170,36 @@ pub fn fmt_cell(req: &Value) -> Value {
         Err(e) => json!({"err": format!("{:?}", e)}),
     }
 }
+
+/// {codes:[u32..], bytes:bool} -> repr text, announced layout length, changed flag, quote, parse-back
+pub fn repr(req: &Value) -> Value {
+    use rustpython_literal::escape::{AsciiEscape, Escape, Quote, UnicodeEscape};
+    let codes: Vec<u32> = req["codes"].as_array().unwrap().iter().map(|v| v.as_u64().unwrap() as u32).collect();
+    if req["bytes"].as_bool().unwrap_or(false) {
+        let b: Vec<u8> = codes.iter().map(|c| *c as u8).collect();
+        let esc = AsciiEscape::new_repr(&b);
+        let text = esc.bytes_repr().to_string();
+        let disp = format!("{}", esc.bytes_repr());
+        json!({"text": text, "display": disp, "len": esc.layout().len, "changed": esc.changed(),
+               "quote": if esc.layout().quote == Quote::Single { "SQ" } else { "DQ" }})
+    } else {
+        let s: String = codes.iter().map(|c| char::from_u32(*c).unwrap()).collect();
+        let esc = UnicodeEscape::new_repr(&s);
+        let text = esc.str_repr().to_string();
+        let disp = format!("{}", esc.str_repr());
+        json!({"text": text, "display": disp, "len": esc.layout().len, "changed": esc.changed(),
+               "quote": if esc.layout().quote == Quote::Single { "SQ" } else { "DQ" }})
+    }
+}
+
+/// {src} -> Constant::parse(src) projected: {"str": [codes]} | {"bytes":[..]} | {"other": debug} | {"err":..}
+pub fn const_parse(req: &Value) -> Value {
+    use rustpython_parser::Parse;
+    let src = req["src"].as_str().unwrap();
+    match rustpython_ast::Constant::parse(src, "<verif>") {
+        Ok(rustpython_ast::Constant::Str(s)) => json!({"str": s.chars().map(|c| c as u32).collect::<Vec<_>>()}),
+        Ok(rustpython_ast::Constant::Bytes(b)) => json!({"bytes": b}),
+        Ok(c) => json!({"other": format!("{:?}", c)}),
+        Err(e) => json!({"err": crate::syn::err_json(&e)}),
+    }
+}
